@@ -7,6 +7,7 @@ import (
 	"errors"
 	"fmt"
 	"os"
+	"runtime"
 	"sort"
 	"strings"
 	"sync"
@@ -16,6 +17,7 @@ import (
 
 	"github.com/gopcua/opcua"
 	"github.com/gopcua/opcua/id"
+	"github.com/gopcua/opcua/server"
 	"github.com/gopcua/opcua/ua"
 	"pgregory.net/rapid"
 
@@ -47,12 +49,13 @@ import (
 
 const survivalBound = 20 * time.Second
 
-// kfFaultDuringReconnect (proposed KF-C26-1, same root cause as KF-C27-1): a
-// fault that arrives while Client.monitor is still restoring the session and
-// the subscriptions of the previous fault is lost (errors of recreateSubscription
-// only continue the loop; the monitor reports Connected and discards the error
-// of the broken connection when it clears sechanErr). While the finding is open
-// the next fault is injected only after the client reported Connected.
+// kfFaultDuringReconnect: a fault that arrived while Client.monitor was still
+// restoring the session and the subscriptions of the previous fault could leave
+// the client Connected on a dead connection (the monitor discarded the error of
+// the broken connection when it cleared sechanErr). /repo commit e25d395 (found
+// by C25) repaired that, so no finding with this id is open and faults are
+// injected at any moment. Should a finding KF-C26-1 be opened again, the next
+// fault is injected only after the client reported Connected.
 const (
 	kfFaultDuringReconnect   = "fault-during-reconnect:Connected-on-dead-connection:client.go:monitor-clears-sechanErr"
 	kfFaultDuringReconnectID = "KF-C26-1"
@@ -154,8 +157,20 @@ func (r *survRun) onState(s opcua.ConnState) {
 
 func varName(i int) string { return fmt.Sprintf("c26v%d", i) }
 
+// devLogger prints the server's own log (development aid).
+type devLogger struct{}
+
+func (devLogger) Debug(msg string, args ...any) {}
+func (devLogger) Info(msg string, args ...any)  { fmt.Printf("SERVER info: "+msg+"\n", args...) }
+func (devLogger) Warn(msg string, args ...any)  { fmt.Printf("SERVER warn: "+msg+"\n", args...) }
+func (devLogger) Error(msg string, args ...any) { fmt.Printf("SERVER error: "+msg+"\n", args...) }
+
 func startServer(nvars int) (*stack.Server, error) {
-	s, err := stack.StartServer(stack.ServerOpts{})
+	var extra []server.Option
+	if os.Getenv("VERIF_C26_DEV_SERVERLOG") != "" {
+		extra = append(extra, server.SetLogger(devLogger{}))
+	}
+	s, err := stack.StartServer(stack.ServerOpts{Extra: extra})
 	if err != nil {
 		return nil, err
 	}
@@ -619,6 +634,13 @@ func decideSurvival(c *SurvCase, logf func(string, ...any)) (msg string, res sur
 		return inconclusive("process-starved")
 	}
 	if os.Getenv("VERIF_C26_DEV_SURVEY") != "" {
+		buf := make([]byte, 8<<20)
+		buf = buf[:runtime.Stack(buf, true)]
+		for _, g := range strings.Split(string(buf), "\n\n") {
+			if strings.Contains(g, "opcua/server.") || strings.Contains(g, "opcua.(*Client)") {
+				fmt.Println("GOROUTINE", g)
+			}
+		}
 		cj, _ := json.Marshal(c)
 		fmt.Printf("SURVEY %s\n  case: %s\n  missing: %s\n  events: %s\n", res.verdict, cj, strings.Join(res.obs.Missing, "\n    "), strings.Join(res.obs.Events, "\n    "))
 		return "", res, nil
